@@ -67,7 +67,7 @@ def cleanAllEvents (v : Variant) (resume : Bool) (exps : List Exp) (m : MFS) : L
   else exps.flatMap (fun x => (lockList x.2.1 (m.view x.1)).map (fun p => (x.1, Ev.remove p)))
 
 /-- isoquant.py: `--resume` unpickles `.params`; save_params rewrites it (once per invocation) -/
-def paramsEvents : List MEv := [(0, .create .params), (0, .commit .params .good)]
+def paramsEvents (v : Variant) : List MEv := (paramsEvs v).map (fun e => (0, e))
 
 /-- one invocation on the folder `m` -/
 def runMulti (v : Variant) (exps : List Exp) (resume : Bool) (m : MFS) : MRes :=
@@ -75,9 +75,9 @@ def runMulti (v : Variant) (exps : List Exp) (resume : Bool) (m : MFS) : MRes :=
   let m1 := mApplyAll m c
   if resume && !(m1.view 0).loadable .params then ⟨c, m1, false⟩
   else
-    let m2 := mApplyAll m1 paramsEvents
+    let m2 := mApplyAll m1 (paramsEvents v)
     let r := runExps v resume exps m2
-    ⟨c ++ paramsEvents ++ r.evs, r.fs, r.ok⟩
+    ⟨c ++ paramsEvents v ++ r.evs, r.fs, r.ok⟩
 
 /-- `Cfg.carried` of every experiment: an earlier experiment of the invocation has unaligned reads -/
 def withCarried : Bool → List Cfg → List Cfg
